@@ -28,10 +28,10 @@ s(t) == StrV(t)
 P == <<"P">>
 N == <<"N">>
 SSet == IF Big THEN {EnvInherit, EnvAuto, EnvOff, EnvName(P)} ELSE {EnvInherit, EnvAuto, EnvName(P)}
-SSet2 == IF Big THEN {EnvInherit, EnvAuto, EnvOff, EnvName(P)} ELSE {EnvInherit, EnvOff, EnvName(P)}
+SSet2 == {EnvInherit, EnvAuto, EnvOff, EnvName(P)}
 FSet == {EnvInherit, EnvAuto, EnvOff, EnvName(N)}
 FSet2 == IF Big THEN FSet ELSE {EnvInherit, EnvAuto}
-FSet3 == IF Big THEN FSet ELSE {EnvInherit, EnvOff, EnvName(N)}
+FSet3 == IF Big THEN FSet ELSE {EnvInherit, EnvName(N)}
 
 SchemaE(s1, f1, s2, f2, f3) ==
     [senv |-> s1] @@ SchemaF(<<
